@@ -45,7 +45,10 @@ SPEC = dict(
           "probe node; 3-16 operations (H dials over QUIC | WebTransport | TCP, observer dials H's mapped QUIC endpoint, both "
           "at once, LAN node dials the private TCP address, H closes a peer or one connection, observer closes, observer node "
           "shuts down, probe dial), each followed by IdentifyWait on every open connection + 11 s virtual (two recompute "
-          "periods of the host's address manager + slack) + WaitIdle and the check; non-trivial = a public address was "
+          "periods of the host's address manager + slack) + WaitIdle and the check; in the unsettled variant (half of the "
+          "system runs) about half of the operations are followed by nothing or by a drawn 1 ms..6 s instead (at most 5 in a "
+          "row, judged at settled instants only) and half of those runs start cold (H built last, first operation in the same "
+          "instant); non-trivial = a public address was "
           "advertised at some check; distinct = (operations, advertised public addresses at every check)"),
     probes=["address-activated", "address-deactivated", "more-than-3-candidates", "tie-at-cap", "duplicate-observer-group",
             "same-v4-ip-twice", "same-v6-56-twice", "shared-thin-waist-pooled", "sibling-transport-report",
@@ -54,7 +57,8 @@ SPEC = dict(
             "sys-public-address-advertised", "sys-public-address-withdrawn", "sys-at-threshold-minus-1",
             "sys-at-or-above-threshold", "sys-one-group-several-connections", "sys-lan-observer", "sys-tcp-outbound",
             "sys-inbound-through-nat", "sys-simultaneous-connect", "sys-webtransport-dial", "sys-identify-sent-checked",
-            "sys-observer-shutdown",
+            "sys-observer-shutdown", "sys-operation-not-settled", "sys-cold-start",
+            "sys-identify-completed-on-conn-closed-before-settle", "sys-open-conn-without-identify",
             "late-identify-on-closed-conn", "close-right-after-identify", "identify-vs-close-race",
             "race-at-threshold-minus-1", "nat-type-tick",
             "uncountable-loopback", "uncountable-nat64", "uncountable-relayed", "uncountable-inconsistent-transport",
